@@ -695,6 +695,44 @@ theorem mergeHolder_eq (h : BVal) (v patch : JVal) (hd : decodeHolder h = some v
   rw [Merge.mergeNode_eq_rfc patch (some v)]
   rfl
 
+theorem small_of_enc (v : JVal) (bs : Bytes) (he : enc v = some bs) (hl : bs.length + 9 < 2 ^ 31) : small v := by
+  intro bs' h
+  rw [he] at h
+  simp only [Option.some.injEq] at h
+  subst h
+  exact hl
+
+/-- success of the abstract call with a `leafOk` result: the byte-level call succeeds and holds that result when the
+    binary form can hold it, and refuses (`JBL_ERROR_CREATION`, bytes unchanged) when it cannot -/
+theorem jblPatch_ok (h : BVal) (v : JVal) (patch : Node) (d' : JVal) (hh : Holds h v)
+    (hr : patchBinary v patch = (some d', .ok)) (hl : leafOk d' = true) :
+    (wf d' = true → small d' → ∃ h', jblPatch h patch = (h', .ok) ∧ Holds h' d') ∧
+    (wf d' = false → jblPatch h patch = (h, .creation)) := by
+  rcases jblPatch_eq h v patch hh.1 with he | ⟨he, hv⟩
+  · rw [hr] at he
+    simp only [wrapRes] at he
+    constructor
+    · intro hw hs
+      exact ⟨viewOf d', by rw [he, swapIn_wf h d' hw], holds_view d' hw hs⟩
+    · intro hw
+      rw [he, swapIn_not_wf h d' hl hw]
+  · rw [hr] at hv
+    simp only [Prod.mk.injEq, Option.some.injEq, and_true] at hv
+    subst hv
+    constructor
+    · intro _ _; exact ⟨h, he, hh⟩
+    · intro hw; rw [hh.2] at hw; cases hw
+
+/-- an error of the abstract call is the error of the byte-level call, and the holder is untouched -/
+theorem jblPatch_err (h : BVal) (v : JVal) (patch : Node) (hd : decodeHolder h = some v)
+    (he : (patchBinary v patch).2 ≠ .ok) : jblPatch h patch = (h, (patchBinary v patch).2) := by
+  rcases jblPatch_eq h v patch hd with h1 | ⟨_, hv⟩
+  · rw [h1]
+    generalize patchBinary v patch = r at he ⊢
+    obtain ⟨d, e⟩ := r
+    cases e <;> first | exact absurd rfl he | (cases d <;> rfl)
+  · rw [hv] at he; exact absurd rfl he
+
 /-! ## sequences of RFC 6902 patch documents applied to one holder -/
 
 /-- the specification of a sequence of calls: each program is applied as RFC 6902 says; a program the RFC rejects, or
@@ -705,6 +743,14 @@ def rfcSeq : JVal → List (List Rfc.Op) → JVal
     match Rfc.run v p with
     | some d' => rfcSeq (if wf d' then d' else v) r
     | none => rfcSeq v r
+
+/-- which calls of the sequence report success -/
+def rfcSeqAcc : JVal → List (List Rfc.Op) → List Bool
+  | _, [] => []
+  | v, p :: r =>
+    match Rfc.run v p with
+    | some d' => wf d' :: rfcSeqAcc (if wf d' then d' else v) r
+    | none => false :: rfcSeqAcc v r
 
 /-- hypotheses on one program (those of `C15.jbl_patch_rfc_partial` plus `OpLeaf`) -/
 structure ProgOk (ops : List Rfc.Op) : Prop where
@@ -728,6 +774,11 @@ def SeqOk : JVal → List (List Rfc.Op) → Prop
 def mergeSpecSeq : JVal → List JVal → JVal
   | v, [] => v
   | v, p :: r => mergeSpecSeq (if wf (Rfc.mergePatch v p) then Rfc.mergePatch v p else v) r
+
+def mergeSeqAcc : JVal → List JVal → List Bool
+  | _, [] => []
+  | v, p :: r =>
+    wf (Rfc.mergePatch v p) :: mergeSeqAcc (if wf (Rfc.mergePatch v p) then Rfc.mergePatch v p else v) r
 
 def MergeSeqOk : JVal → List JVal → Prop
   | _, [] => True
